@@ -172,6 +172,14 @@ class Index:
                     ts = key[-37:-33]
                     # print(key, match, ts, since, until)
 
+                    if key[:matchlen] == match and len(key) != matchlen + 37:
+                        # entry of a longer value which contains the separator
+                        # ("a\x00b" while scanning "a"): not ours, keep scanning
+                        if not prev():
+                            break
+                        key = bytes(get_key())
+                        continue
+
                     if (
                         key[:matchlen] != match
                         or (since and ts < since)
